@@ -59,19 +59,34 @@ def dump(rel, filt):
     os.makedirs(CACHE, exist_ok=True)
     key = hashlib.sha256((file_sha(rel) + headers_sha() + rel + "|" + filt).encode()).hexdigest()[:32]
     path = os.path.join(CACHE, key + ".json")
+    with _lock:
+        kl = _keylocks.setdefault(key, threading.Lock())
+    with kl:
+        return _dump_locked(rel, filt, path)
+
+
+_keylocks = {}
+_mem = {}
+
+
+def _dump_locked(rel, filt, path):
+    if path in _mem:
+        return _mem[path]
     if os.path.exists(path):
         with open(path) as f:
-            return json.load(f)
+            _mem[path] = json.load(f)
+            return _mem[path]
     cmd = ["clang++", "-fsyntax-only", "-w"] + build_flags() + [
         "-Xclang", "-ast-dump=json", "-Xclang", "-ast-dump-filter=" + filt, os.path.join(REPO, rel)]
     p = subprocess.run(cmd, stdout=subprocess.PIPE, stderr=subprocess.PIPE, timeout=300)
     if p.returncode != 0:
         raise Undecided("clang failed on %s: %s" % (rel, p.stderr.decode()[-400:]))
     docs = _parse_docs(p.stdout.decode())
-    tmp = path + ".%d.tmp" % os.getpid()
+    tmp = path + ".%d.%d.tmp" % (os.getpid(), threading.get_ident())
     with open(tmp, "w") as f:
         json.dump(docs, f)
     os.replace(tmp, path)
+    _mem[path] = docs
     return docs
 
 
